@@ -142,11 +142,13 @@ PROPS = {
         "lean": ["PasfmtModel.Props.C07"],
         "streams": [
             {"stream": "fmt", "families": ALL_FAMILIES + ",regions", "quick": 3000, "thorough": 40000,
-             "binding": ["marks", "lv", "prec", "out", "*"], "args": {"oracles": "c07"}},
+             "binding": ["marks", "lv", "prec", "wc", "out", "*"], "args": {"oracles": "c07"}},
         ],
         "oracle_prefixes": ["c07", "glue"],
         "abnormal_binding": False,
-        "explanation": "verbatim_emitted: for every counter assignment, every run of ignored tokens is emitted as scanned, provided no "
+        "explanation": "C07_format: for every input, configuration, parser behaviour and wrapper that keeps ignored tokens (WrapKeepsIgnored, "
+                       "evaluated per case as part of wc), a run of tokens marked by the ignorers is found contiguously in the output with its "
+                       "scanned whitespace and text. verbatim_emitted: for every counter assignment, every run of ignored tokens is emitted as scanned, provided no "
                        "safety-net break falls inside the run (decidable; evaluated per case as info_sr); ignored tokens cannot be "
                        "rewritten (guarded setter). Toggle recogniser, marks, void step and reconstruction are exact models tied by the "
                        "fmt stream (fields marks, lv, out).",
